@@ -701,10 +701,86 @@ def fd_rules(run, db):
                   % (suffix, suffix, sorted(want), sorted(got)), fb.loc())
 
 
+def arg_of_(seq, name, pos):
+    for nm, n, st in seq:
+        if nm == name:
+            a = list(n.args) + [k.value for k in n.keywords]
+            return ast.unparse(a[pos]) if len(a) > pos else None
+    return None
+
+
+def resample_adjoint_rules(run, db):
+    """fourier_resample_backprop is the transpose of fourier_resample, stage by stage in reverse: the zoomed inverse matrix DFT is answered
+    by its own companion with the same zoom and the input size, the forward FFT by the inverse FFT times the number of input samples
+    (fft2^H = m n ifft2), shifts are mirrored, and the scalar of the forward is carried over."""
+    from ..core.interp import Interp, Value
+    from .common import capture_calls
+    FT_ = 'prysm.fttools.'
+    ff, fb = db.func(FT_ + 'fourier_resample'), db.func(FT_ + 'fourier_resample_backprop')
+    E = FT_ + 'MatrixDFTExecutor.'
+
+    def run_one(f, kw, ev_name):
+        it, dom = norm_interp(db)
+        oe = dom.call_ext
+        seq = []
+
+        def call_ext(dotted, args, kwargs, node):
+            last = dotted.rsplit('.', 1)[-1]
+            if last in ('fft2', 'ifft2', 'fftshift', 'ifftshift') and dotted.startswith(('scipy.fft', 'numpy.fft')) and args and dom.rat(args[0]) is not None:
+                seq.append(last)
+                return dom.func_atom(last, [args[0]]) if last in ('fft2', 'ifft2') else args[0]
+            if last == 'sqrt' and args and dom.rat(args[0]) is not None:
+                return oe(dotted, args, kwargs, node)
+            return oe(dotted, args, kwargs, node)
+        dom.call_ext = call_ext
+        og = dom.getattr
+
+        def getattr_(v, name, node):
+            if dom.rat(v) is not None and name == 'shape':
+                return Tup([dom.sym('m'), dom.sym('n')])
+            if dom.rat(v) is not None and name == 'size':
+                return it.binop(ast.Mult(), dom.sym('m'), dom.sym('n'), node)
+            if dom.rat(v) is not None and name == 'real':
+                seq.append('real')
+                return v
+            return og(v, name, node)
+        dom.getattr = getattr_
+        paths, calls = capture_calls(it, dom, f, kw(dom), {E + 'idft2', E + 'idft2_backprop'}, lambda f_, b_: (seq.append(f_.name), dom.sym('X_' + f_.name))[1])
+        rets = [p for p in paths if p.outcome == 'return' and dom.rat(p.value) is not None and any(a.startswith(('X_', 'ifft2(', 'fft2(')) for a in dom.rat(p.value).atoms())]
+        return dom, seq, calls, rets
+    domf, seqf, callsf, retsf = run_one(ff, lambda d: (lambda: {'f': d.sym('F'), 'zoom': Tup([d.sym('z0'), d.sym('z1')])}), 'f')
+    domb, seqb, callsb, retsb = run_one(fb, lambda d: (lambda: {'fbar': d.sym('G'), 'zoom': Tup([d.sym('z0'), d.sym('z1')]), 'samples_in': Tup([d.sym('m'), d.sym('n')])}), 'b')
+    if len(callsf) != 1 or len(callsb) != 1 or not retsf or not retsb:
+        raise AnalysisError('fourier_resample(_backprop): the zoomed matrix DFT call or the returned value is not followed')
+    mirror = {'fftshift': 'ifftshift', 'ifftshift': 'fftshift', 'fft2': 'ifft2', 'idft2': 'idft2_backprop', 'real': 'real'}
+    want = [mirror.get(x, x) for x in reversed([x for x in seqf if x != 'real'])]
+    got = [x for x in seqb if x != 'real']
+    run.check(got == want, 'C06.dm', fb.qual, 'resampler transpose: stages', 'the companion applies the transposes of the forward steps in reverse order: %s' % want,
+              'fourier_resample applies %s; its companion applies %s, expected %s' % (seqf, seqb, want), fb.loc())
+    kf, kb = callsf[0][1], callsb[0][1]
+    keyf = lambda d, v: d.rat(v).key() if v is not None and d.rat(v) is not None else (('(%s)' % ','.join(keyf(d, x) for x in v.items)) if isinstance(v, Tup) else repr(v))
+    okz = keyf(domf, kf.get('Q')) == keyf(domb, kb.get('Q')) == '(z0,z1)' and keyf(domb, kb.get('samples_out')) == '(m,n)'
+    run.check(okz, 'C06.dm', fb.qual, 'resampler transpose: zoomed DFT', 'the zoomed inverse DFT and its companion share the zoom; the companion is given the input size (m, n)',
+              'forward idft2(Q=%s, samples_out=%s); companion idft2_backprop(Q=%s, samples=%s)' % (keyf(domf, kf.get('Q')), keyf(domf, kf.get('samples_out')), keyf(domb, kb.get('Q')), keyf(domb, kb.get('samples_out'))), fb.loc())
+    # scalars: forward c = z0 z1 / sqrt(m n); companion c * m n
+    Rf, Rb = domf.R, domb.R
+    cf_ = domf.rat(retsf[0].value) / Rat(Rf.atom('X_idft2'))
+    inner = [a for a in domb.rat(retsb[0].value).atoms() if a.startswith(('ifft2(', 'fft2('))]
+    if len(inner) != 1:
+        raise AnalysisError('fourier_resample_backprop: the result is not a multiple of one inverse FFT')
+    cb_ = domb.rat(retsb[0].value) / Rat(Rb.atom(inner[0]))
+    m_, n_ = Rat(Rb.atom('m')), Rat(Rb.atom('n'))
+    want_b = Rat(Rb.atom('z0')) * Rat(Rb.atom('z1')) / Rat(Rb.sqrt(m_ * n_)) * m_ * n_
+    want_f = Rat(Rf.atom('z0')) * Rat(Rf.atom('z1')) / Rat(Rf.sqrt(Rat(Rf.atom('m')) * Rat(Rf.atom('n'))))
+    run.check(cb_ == want_b and cf_ == want_f,
+              'C06.dm', fb.qual, 'resampler transpose: scalar', 'companion scalar == forward scalar (z0 z1 / sqrt(m n)) times m n (fft2^H = m n ifft2)',
+              'forward scalar %s, companion scalar %s' % (cf_.key(), cb_.key()), fb.loc())
+
+
 def dm_rules(run, db):
     D = 'prysm.x.dm.DM.'
     ff, fb = db.func(D + 'render'), db.func(D + 'render_backprop')
-    stage_names = {'apply_transfer_functions', 'warp', 'fourier_resample', 'pad2d', 'crop_center'}
+    stage_names = {'apply_transfer_functions', 'warp', 'fourier_resample', 'fourier_resample_backprop', 'pad2d', 'crop_center'}
 
     def stages(fi):
         out = []
@@ -728,6 +804,17 @@ def dm_rules(run, db):
             out.append(nm)
         return out
     cf, cb = collapse(sf), collapse(sb)
+    # the companion of a Fourier resampling is its transpose; resampling by the reciprocal factor is another map (it is the approximate
+    # inverse, not the adjoint: different scale and different treatment of the band edge)
+    resamp_b = [nm for nm in cb if nm.startswith('fourier_resample')]
+    if 'fourier_resample' in cf:
+        run.check(resamp_b == ['fourier_resample_backprop'], 'C06.dm', fb.qual, 'resampling companion', 'the Fourier resampling of render is undone by fourier_resample_backprop (its transpose)',
+                  'render resamples with fourier_resample; render_backprop answers with %s -- resampling by the reciprocal factor is not the transpose of the resampler, so for upsample != 1 '
+                  '<ybar, render(a)> != <render_backprop(ybar), a>' % (resamp_b or 'nothing'), fb.loc())
+        zf, zb = arg_of_(sf, 'fourier_resample', 1), arg_of_(sb, 'fourier_resample_backprop', 1)
+        if resamp_b == ['fourier_resample_backprop']:
+            run.check(zf == zb, 'C06.dm', fb.qual, 'resampling factor', 'forward and companion are given the same zoom', 'forward resamples by %s, the companion is given %s' % (zf, zb), fb.loc())
+    cb = ['fourier_resample' if nm == 'fourier_resample_backprop' else nm for nm in cb]
     run.check(cb == list(reversed(cf)), 'C06.dm', fb.qual, 'stage order', 'companion stages are the forward stages in reverse: %s' % cf,
               'render_backprop stages %s are not the reverse of render stages %s' % (cb, cf), fb.loc())
     # geometric arguments correspond
@@ -813,7 +900,7 @@ def check(run, db, tier):
     run.group(cache_rules, run, db)
     run.require_instances('C06.cache', 2)
     run.rule('C06.dm', 'DM companion runs the forward stages in reverse with corresponding geometry; pad/crop guards compare one axis')
-    for fn in (inventory_rules, matrix_rules, fixed_rules, chain_rules, babinet_bp_rules, wrapper_rules, const_rules, activation_rules, cost_rules, sum_rules, fd_rules, dm_rules):
+    for fn in (inventory_rules, matrix_rules, fixed_rules, chain_rules, babinet_bp_rules, wrapper_rules, const_rules, activation_rules, cost_rules, sum_rules, fd_rules, dm_rules, resample_adjoint_rules):
         run.group(fn, run, db)
     run.require_instances('C06.matrix', 20)
     run.require_instances('C06.fixed', 16)
